@@ -954,7 +954,15 @@ init_const_expr(const string &expr) {
   _state = S_normal;
   _saved_tokens.push_back(CPPToken(START_CONST_EXPR));
 
-  return push_string(expr);
+  if (!push_string(expr)) {
+    return false;
+  }
+  // An expression is not a place for preprocessor directives.  The text of a
+  // continued #if line may well contain a line that begins with '#', and we
+  // would otherwise go and #include files from within the evaluation of the
+  // condition.
+  _infile->_ignore_manifest = true;
+  return true;
 }
 
 /**
@@ -965,7 +973,12 @@ init_type(const string &type) {
   _state = S_normal;
   _saved_tokens.push_back(CPPToken(START_TYPE));
 
-  return push_string(type);
+  if (!push_string(type)) {
+    return false;
+  }
+  // See init_const_expr().
+  _infile->_ignore_manifest = true;
+  return true;
 }
 
 /**
